@@ -1,5 +1,6 @@
 (* Conc/PipelineSpec.v — statements about the pipeline LTS (Conc/Pipeline.v).  Statements only
-   (`Definition x_stmt : Prop`); proofs in Conc/Pipeline_proofs.v, Conc/PipelineLive_proofs.v.
+   (`Definition x_stmt : Prop`); proofs in Conc/Pipeline_proofs.v, Conc/PipelineRing_proofs.v,
+   Conc/PipelineLive_proofs.v.
 
    Everything is quantified over ALL interleavings: `reachable` = the end of an arbitrary sequence
    of (actor, label) events accepted by `pstep` from the initial state, for any number of committer
@@ -90,24 +91,14 @@ Definition failure_label (l : label) : bool :=
 Definition failure_free (evs : list (actor * label)) : Prop :=
   forall a l, In (a, l) evs -> failure_label l = false.
 
-(* full statement: as long as permits < slots the queue never holds more than `permits` batches and
-   enqueue never finds it full.  FALSE for the code as it is (see no_overflow_refuted_stmt): a failed
-   commit returns its permit while its batch may still be queued behind an unapplied one. *)
+(* N1: as long as permits < slots the queue never holds more than `permits` batches and enqueue never
+   finds it full (so the "commit queue overflow" panic is unreachable) — failures of env.write / env.apply
+   included: a failed commit keeps its permit until its batch has been dequeued. *)
 Definition no_overflow_stmt : Prop :=
   forall c n m v s, c_permits c < c_slots c -> reachable c n m v s ->
     qhead s - qtail s <= c_permits c /\
-    forall i t, nth_error (thrs s) i = Some t -> t_pc t <> CEnqFullSeen.
-(* what holds: the same along runs in which neither env.write nor env.apply fails *)
-Definition no_overflow_partial_stmt : Prop :=
-  forall c n m v evs s, c_permits c < c_slots c -> prun c (pinit c n m v) evs = Some s -> failure_free evs ->
-    qhead s - qtail s <= c_permits c /\
-    forall i t, nth_error (thrs s) i = Some t -> t_pc t <> CEnqFullSeen.
-(* the refutation, for the configuration of the crate (slots / permits given as arguments) *)
-Definition no_overflow_refuted_stmt (slots permits : nat) : Prop :=
-  exists n evs s i t,
-    prun {| c_slots := slots; c_permits := permits; c_memlimit := 2; c_l0limit := 100 |}
-         (pinit {| c_slots := slots; c_permits := permits; c_memlimit := 2; c_l0limit := 100 |} n 0 0) evs = Some s
-    /\ nth_error (thrs s) i = Some t /\ t_pc t = CReturned ResPanic.
+    forall i t, nth_error (thrs s) i = Some t ->
+      t_pc t <> CEnqFullSeen /\ t_pc t <> CEnqPanic /\ t_pc t <> CReturned ResPanic.
 
 (* head/tail are u32 in the code (wrapping_add, index = counter & (slots-1)); the model uses
    unbounded counters.  They agree as long as slots is a power of two dividing 2^32 and
@@ -147,50 +138,25 @@ Definition unfinished (s : plstate) : Prop :=
 Definition l0_quiet (evs : list (actor * label)) (c : cfg) : Prop :=
   forall a im l0, In (a, LStallCounted im l0) evs -> l0 < c_l0limit c.
 
-(* L1: no deadlock: whenever a commit() or close() is under way, some thread of the system can move *)
+(* In the code an empty batch returns Ok before the stall check (`if batch.is_empty() { return Ok(()) }`) and
+   Transaction::commit never submits one; in the LTS a thread with `LEnter 0` would get stuck at `LSeqAllocated`
+   (guard 0 < cnt).  The liveness statements are about runs whose batches are non-empty, as in every real run. *)
+Definition nonempty_run (evs : list (actor * label)) : Prop := forall a k, In (a, LEnter k) evs -> 0 < k.
+
+(* L1: no deadlock, whole system (rotation, stall protocol, flush and level tasks, close(), failures of env.write /
+   env.apply, conflicts): whenever a commit() or close() is under way, some thread of the system can move.
+   (Holds since the flush task re-checks for pending immutables after clearing `running` and notifies itself.) *)
 Definition deadlock_free_stmt : Prop :=
   forall c n m v evs s, 0 < c_permits c -> c_permits c < c_slots c -> 2 <= c_memlimit c ->
-    prun c (pinit c n m v) evs = Some s -> l0_quiet evs c -> unfinished s -> progress_step c s.
-(* FALSE for the code as it is: wake_up_memtable skips the notify while the flush task's `running`
-   flag is set; rotations that happen after the task's last has_pending_immutables() check and before
-   it clears the flag are never flushed, and once `memlimit` of them are waiting every new writer
-   stalls with nobody left to wake the flush task (only close() releases them, with an error) *)
-Definition deadlock_free_refuted_stmt (slots permits memlimit : nat) : Prop :=
-  exists n evs s,
-    prun {| c_slots := slots; c_permits := permits; c_memlimit := memlimit; c_l0limit := 100 |}
-         (pinit {| c_slots := slots; c_permits := permits; c_memlimit := memlimit; c_l0limit := 100 |} n 0 0) evs = Some s
-    /\ l0_quiet evs {| c_slots := slots; c_permits := permits; c_memlimit := memlimit; c_l0limit := 100 |}
-    /\ unfinished s /\ ~ progress_step {| c_slots := slots; c_permits := permits; c_memlimit := memlimit; c_l0limit := 100 |} s.
-(* the flush task sleeps without a wake-up permit although enough immutable memtables wait to stall writers *)
-Definition flush_starved (c : cfg) (s : plstate) : Prop :=
-  c_memlimit c <= g_imm (bg s) /\ g_fpermit (bg s) = false /\
-  (g_fpc (bg s) = FWait \/ g_fpc (bg s) = FInit \/ g_fpc (bg s) = FIdle \/ g_fpc (bg s) = FExit).
-(* what holds: no deadlock in states where the flush task is not starved *)
-Definition deadlock_free_partial_stmt : Prop :=
-  forall c n m v evs s, 0 < c_permits c -> c_permits c < c_slots c -> 2 <= c_memlimit c ->
-    prun c (pinit c n m v) evs = Some s -> l0_quiet evs c -> unfinished s -> ~ flush_starved c s -> progress_step c s.
-(* the same for the pipeline alone: runs without memtable rotation (no stall, no background work) *)
+    prun c (pinit c n m v) evs = Some s -> l0_quiet evs c -> nonempty_run evs -> unfinished s -> progress_step c s.
+(* the same for the pipeline alone: runs without memtable rotation (no stall, no background work), no failures *)
 Definition core_label (l : label) : bool :=
   match l with LArenaFull | LCloseStart | LLevelDone _ | LMemError | LLevelError => false | _ => true end.
 Definition core_run (evs : list (actor * label)) : Prop := forall a l, In (a, l) evs -> core_label l = true.
 Definition deadlock_free_core_stmt : Prop :=
   forall c n m v evs s, 0 < c_permits c -> c_permits c < c_slots c -> 2 <= c_memlimit c -> 0 < c_l0limit c ->
-    prun c (pinit c n m v) evs = Some s -> core_run evs -> failure_free evs -> unfinished s -> progress_step c s.
-
-(* In the code an empty batch returns Ok before the stall check (`if batch.is_empty() { return Ok(()) }`)
-   and Transaction::commit never submits one; in the LTS a thread with `LEnter 0` gets stuck at
-   `LSeqAllocated` (guard 0 < cnt), so deadlock_free_core_stmt / deadlock_free_partial_stmt as written above
-   are false for that artefact (deadlock_free_core_false, deadlock_free_partial_false).  With batches
-   non-empty, as in every real run: *)
-Definition nonempty_run (evs : list (actor * label)) : Prop := forall a k, In (a, LEnter k) evs -> 0 < k.
-Definition deadlock_free_core_partial_stmt : Prop :=
-  forall c n m v evs s, 0 < c_permits c -> c_permits c < c_slots c -> 2 <= c_memlimit c -> 0 < c_l0limit c ->
     prun c (pinit c n m v) evs = Some s -> core_run evs -> failure_free evs -> nonempty_run evs ->
     unfinished s -> progress_step c s.
-Definition deadlock_free_partial_nonempty_stmt : Prop :=
-  forall c n m v evs s, 0 < c_permits c -> c_permits c < c_slots c -> 2 <= c_memlimit c ->
-    prun c (pinit c n m v) evs = Some s -> l0_quiet evs c -> nonempty_run evs ->
-    unfinished s -> ~ flush_starved c s -> progress_step c s.
 
 (* L2: termination: there is a measure into a well-founded order that strictly decreases on every
    step of the system itself; hence no infinite run consists of such steps only *)
